@@ -32,7 +32,7 @@ theorem nodup_of_distinct {l : List Name} (h : distinct l = true) : l.Nodup := (
 /-- the names a `namesOnce` tree writes are pairwise distinct -/
 theorem names_nodup : ∀ a : Ast, namesOnce a = true → (names a).Nodup
   | .name n, _ => by simp [names]
-  | .kw _, _ => by simp [names]
+  | .kw k, _ => by cases k <;> simp [names]
   | .call _ _, _ => by simp [names]
   | .sub _ _, _ => by simp [names]
   | .tuple xs, h => by
